@@ -28,7 +28,7 @@ Definition to_double (q : Q) : Q :=
   | Zneg n => (- to_double_pos (Zpos n) (Qden q))%Q
   end.
 
-Definition ulp (q : Q) : Q :=
+Definition ulp_of (q : Q) : Q :=
   match Qnum q with
   | Z0 => 0%Q
   | Zpos n | Zneg n => pow2 (expo (Zpos n) (Zpos (Qden q)))
@@ -96,9 +96,9 @@ Proof.
 Qed.
 
 Theorem to_double_bound q :
-  (Qabs (to_double q) <= Qabs q /\ Qabs (q - to_double q) < ulp q \/ q == 0)%Q.
+  (Qabs (to_double q) <= Qabs q /\ Qabs (q - to_double q) < ulp_of q \/ q == 0)%Q.
 Proof.
-  destruct q as [[|n|n] d]; [right; reflexivity| |]; left; unfold to_double, ulp; cbn [Qnum Qden].
+  destruct q as [[|n|n] d]; [right; reflexivity| |]; left; unfold to_double, ulp_of; cbn [Qnum Qden].
   - destruct (to_double_pos_bound (Zpos n) d ltac:(lia)) as [L U].
     assert (P : (0 <= to_double_pos (Zpos n) d)%Q).
     { unfold to_double_pos. apply Qmult_le_0_compat; [|apply Qlt_le_weak; apply pow2_pos].
